@@ -990,6 +990,10 @@ def _read_asn1_integer(
         header=header,
         hint=hint,
     )
+    if not raw_int:
+        hint_str = f" for {hint}" if hint else ""
+        raise ValueError(f"Invalid ASN.1 INTEGER value{hint_str}: no content octets")
+
     b_int = bytearray(raw_int)
 
     is_negative = b_int[0] & 0b10000000
